@@ -8,6 +8,8 @@ import (
 	"sort"
 	"strings"
 
+	res "github.com/jirenius/go-res"
+
 	"verif/harness/internal/core"
 )
 
@@ -81,3 +83,31 @@ func tierPick(t core.Tier, quick, thorough int) int {
 func q(s string) string { return fmt.Sprintf("%q", s) }
 
 func newRand(seed int64) *rand.Rand { return rand.New(rand.NewSource(seed)) }
+
+// predefinedErrors: the exported error values of the library with the code and message
+// they are documented with. Handlers use them as they are (r.Error(res.ErrNotFound)), so
+// nothing the library does may change them.
+var predefinedErrors = []struct {
+	name      string
+	e         *res.Error
+	code, msg string
+}{
+	{"ErrAccessDenied", res.ErrAccessDenied, "system.accessDenied", "Access denied"},
+	{"ErrInternalError", res.ErrInternalError, "system.internalError", "Internal error"},
+	{"ErrInvalidParams", res.ErrInvalidParams, "system.invalidParams", "Invalid parameters"},
+	{"ErrInvalidQuery", res.ErrInvalidQuery, "system.invalidQuery", "Invalid query"},
+	{"ErrMethodNotFound", res.ErrMethodNotFound, "system.methodNotFound", "Method not found"},
+	{"ErrNotFound", res.ErrNotFound, "system.notFound", "Not found"},
+	{"ErrTimeout", res.ErrTimeout, "system.timeout", "Request timeout"},
+}
+
+// checkPredefinedErrors reports a predefined error value that no longer has its
+// documented content (called at the end of batches that drove handlers and query callbacks).
+func checkPredefinedErrors(c *core.Ctx, prop string) {
+	for _, pe := range predefinedErrors {
+		if pe.e == nil || pe.e.Code != pe.code || pe.e.Message != pe.msg || pe.e.Data != nil {
+			c.Violation(prop+"/predefined-error-altered:"+pe.name, fmt.Sprintf("res.%s is now %s; it is documented (and was at start) as code %q message %q without data: every later response built from it carries the altered content", pe.name, jsonStr(pe.e), pe.code, pe.msg), nil)
+		}
+	}
+	c.Obs("predefined_error_checks", 1)
+}
